@@ -21,6 +21,8 @@ TEXT = {
          "bounds: n in 1..1024 for UuidMod; P<=4 (quick) for the API paths plus one 300-partition run; z3 5.1 and cvc5 --solve-bv-as-int"),
  "C11": ("Bounded model checking of the real proposer/apply-loop interplay over a harness raft node: every interleaving at synchronisation points with commit/no-commit, plus unreachable owners and mixed batches.",
          "bounds: <=2 callers, 1-2 preemptions, 3-item batches; real raft replaced by a harness etcdRaft.Node feeding an apply goroutine; timeouts fire only when everything is blocked; no solver variables occur (exhaustive path enumeration by the symbolic executor)"),
+ "C15": ("Bounded symbolic checking of the machine code of the six AVX/SSE kernels (disassembled from the freshly built binary): for every length in the bound and every 4-byte aligned base address, every load stays inside the two vectors and every store hits a result cell; alignment requirements; equality with the portable formulas for all exact-integer lane values; per-lane Float32 lemmas for the places where the kernels' arithmetic differs. Agreement within a ULP bound for arbitrary finite floats is not decided.",
+         "bounds: len 1..64 (512 thorough) for memory/alignment, len <= 16 (32) for value equality with integer lanes |v|<=64 (cosine |v|<=8); three known findings (SSE alignment faults, Manhattan sqrt-of-square overflow, cosine norm-product overflow); objdump decoding trusted"),
  "C16": ("Bounded model checking of Allocator.getPartitionsNodeIds over all Fisher-Yates outcomes; independence as a cover obligation confirmed natively by repeated runs.",
          "bounds: N<=3-4, R<=3, P<=2-3; no solver variables occur (exhaustive path enumeration by the symbolic executor)"),
  "C17": ("Bounded symbolic model checking of the real Dataset.SizeInfo goroutines with symbolic remote sizes: sum, exactly-once lookup, failure propagation, no goroutine left blocked.",
@@ -54,7 +56,9 @@ def main():
         "hooks": {"guard": "verif",
                   "enable": "no source hooks are committed to /repo: harnesses, the verifrt run-time and the export shims are overlay files under /verif/harness (build tag verif), injected with go/packages Overlay for the symbolic run and `go test -tags verif -overlay` for the native replay",
                   "baseline_off_cmd": "/verif/bin/baseline", "source_commits": [], "add_only": True},
-        "engines": [{"name": "gosmt", "path": "/verif/engine/gosmt", "serves_properties": sorted(props.PROPS.keys()),
+        "engines": [{"name": "asmsmt", "path": "/verif/checks/c15.py", "serves_properties": ["C15"],
+                     "kind_free_text": "symbolic executor for the x86-64 SIMD kernels (objdump disassembly of the freshly built test binary -> z3 terms: bit-vector registers/flags/addresses, exact-integer lanes, Float32 lemmas); counterexamples replayed natively in a child process"},
+                    {"name": "gosmt", "path": "/verif/engine/gosmt", "serves_properties": sorted(props.PROPS.keys()),
                      "kind_free_text": "bounded symbolic executor for Go SSA (fork of x/tools/go/ssa/interp: symbolic scalars over bit-vectors/reals, ordered maps with nondeterministic iteration, baton-scheduled goroutines with modelled channels/select/locks/timers) emitting SMT-LIB2 to z3/cvc5; counterexamples replayed natively against the real build"}],
         "checks": [], "not_applicable": [],
         "notes": "Exit codes of bin/check: 0 held on everything explored (KNOWN-FINDING lines for listed defects), 1 replayed violation not listed (VIOLATION line), 2 inconclusive (solver unknown, unwinding failure, engine limitation, vacuous harness, unreproduced counterexample) - never a VIOLATION line. See DESIGN.md.",
@@ -69,7 +73,7 @@ def main():
                 "thorough_cmd": "bin/check %s --tier thorough" % pid,
                 "evidence_file": "/verif/evidence/%s.json" % pid,
                 "replay_cmd_template": "see the replay JSON: inputs/decisions of the counterexample; `bin/check %s --tier quick` re-derives and replays it natively" % pid,
-                "engine": "gosmt",
+                "engine": "asmsmt" if pid == "C15" else "gosmt",
                 "level_claimed": {"category": cfg.get("level", "model_checking"), "text": text, "design_ref": "DESIGN.md section 5 " + pid},
                 "level_note": note,
                 "technique": cfg.get("technique", "solver-based bounded symbolic execution of go/ssa"),
